@@ -1,6 +1,8 @@
 package rules
 
 import (
+	"go/types"
+	"go/token"
 	"go/ast"
 	"sort"
 	"strings"
@@ -90,6 +92,37 @@ func runC04(p *eng.Prog, r *eng.Report, tier string) {
 	for _, f := range neg {
 		inNeg[f] = true
 	}
+	// C04.7 typed-nil errors: a pointer that may be nil returned as an error is
+	// a non-nil error whose Error() dereferences nil
+	nt := 0
+	for _, f := range neg {
+		sig := f.Sig()
+		if f.Body == nil || sig == nil {
+			continue
+		}
+		g := f.Graph()
+		for _, rs := range g.Returns {
+			if len(rs.Results) != sig.Results().Len() {
+				continue
+			}
+			for i, res := range rs.Results {
+				if eng.TypeStr(sig.Results().At(i).Type()) != "error" {
+					continue
+				}
+				rt := f.Info().TypeOf(res)
+				if rt == nil {
+					continue
+				}
+				if _, isPtr := rt.(*types.Pointer); !isPtr {
+					continue
+				}
+				nt++
+				pt, _ := g.Where(rs)
+				c.r.Check("C04.7", f, "pointer returned as error: "+f.Norm(res, nil), "K: a pointer-typed value is returned as an error only where it is known to be non-nil (a nil pointer in an error interface is a non-nil error whose Error() panics)", rs.Pos(), g.NilnessOf(res, pt) == 1, "the pointer may be nil here")
+			}
+		}
+	}
+	r.Note("C04.7: %d pointer-typed error operands examined", nt)
 	nd := tokenDecoderUnmarshaler(c, "C04.6", func(f *eng.Fn) bool {
 		return inNeg[f] || strings.HasPrefix(f.Short, "internal/stream.")
 	})
@@ -158,6 +191,47 @@ func c04Deadline(c *cx) {
 			}
 		}
 		c.r.Check(id, sd, "watcher goroutine body", "the goroutine waits on ctx.Done() and then expires the connection's deadline", sd.Pos(), okSel, "no select arm on ctx.Done() leading to Set*Deadline")
+		if name == "setDeadline" {
+			// the expired deadline stays in force until the guarded operation
+			// ends: clearing it at once only interrupts I/O that happens to be in
+			// progress at that instant, a read started a moment later blocks for
+			// ever although the context is cancelled
+			for _, l := range sd.Lits {
+				lg := l.Graph()
+				var expire, clear []*ast.CallExpr
+				for _, cl := range l.Calls("net.Conn.SetDeadline") {
+					if len(cl.Args) == 1 {
+						if _, isLit := ast.Unparen(cl.Args[0]).(*ast.CompositeLit); isLit {
+							clear = append(clear, cl)
+						} else {
+							expire = append(expire, cl)
+						}
+					}
+				}
+				waitsEnd := func(q eng.Point, nd ast.Node) bool {
+					found := false
+					ast.Inspect(nd, func(x ast.Node) bool {
+						if u, ok := x.(*ast.UnaryExpr); ok && u.Op == token.ARROW {
+							if n := l.Norm(u.X, &q); strings.HasPrefix(n, "context.Context.Done[") && !strings.Contains(n, "outer.p0") {
+								found = true
+							}
+						}
+						return !found
+					})
+					return found
+				}
+				for _, ex := range expire {
+					ep, _ := lg.Where(ex)
+					for _, cl := range clear {
+						cp, _ := lg.Where(cl)
+						if !lg.Reachable(lg.After(ep), cp, nil, nil) {
+							continue
+						}
+						c.r.Check(id, l, "expired deadline kept until the operation ends", "O: after cancellation the past deadline is cleared only after the watcher was told that the operation has returned", cl.Pos(), lg.MustPassBefore(lg.After(ep), cp, waitsEnd, nil), "the deadline is cleared right after it was set: only I/O in progress at that instant is interrupted, a later blocking read never notices the cancellation")
+					}
+				}
+			}
+		}
 	}
 	ex := c.fn(id, "internal/stream", "Expect")
 	if ex != nil {
